@@ -102,6 +102,28 @@ class JSONData(ABC):
         """
         return self._data
 
+    def _canonical(self):
+        """
+        Canonical JSON text of the stored value (sorted keys, standard separators),
+        so that equality and hash do not depend on object identity or on how the
+        JSON text happened to be written
+        """
+        if self._data is None:
+            return None
+        return json.dumps(json.loads(self._data), sort_keys=True)
+
+    def __eq__(self, other):
+        """
+        Two JSON data objects are equal if they are of the same kind and
+        hold the same JSON value
+        """
+        if not isinstance(other, JSONData):
+            return NotImplemented
+        return self.__class__ is other.__class__ and self._canonical() == other._canonical()
+
+    def __hash__(self):
+        return hash((self.__class__.__name__, self._canonical()))
+
     def __str__(self):
         return str(self._data)
 
